@@ -6,6 +6,7 @@ import PsProofs.Wheel
 import PsProofs.PreSieve
 import PsProofs.Segments
 import PsProofs.SegmentCorrect
+import PsProofs.Feed
 import Mathlib.Tactic.NormNum.Prime
 import Mathlib.Tactic.IntervalCases
 import PsModel.Generated.Locks
@@ -243,5 +244,72 @@ theorem C01_model_sources :
       ("Erat.initAlgorithms", "f1a7ebe09c59958b8c39"),
       ("Erat.preSieve", "7341fc248d9a958b47cf"),
       ("PreSieve.preSieve", "4e4f4f3e84a651d27b42")] := by decide
+
+/-- **C01 (sieving primes reach every segment in time — one segment)** for every source sequence that is positive,
+    non-decreasing and strictly increasing below the sentinel ~0ull, every feed state reachable so far and every segment
+    [low, high] with high < 2^64: after the loop of PrimeGenerator::sieveSegment() / CountPrintPrimes::sieve()
+    (`while (prime_ <= isqrt(segmentHigh_)) { addSievingPrime(prime_); prime_ = next(); }`) EVERY source value
+    ≤ isqrt(high) has been passed to addSievingPrime, the pending prime_ is beyond isqrt(high), and what this round added
+    has its square ≤ high.  A `<` in place of `<=`, a skipped round or a lost look-ahead value falsifies it. -/
+theorem C01_feed_complete (src : Nat → Nat) (h : Feed.SrcOk src) (low high : Nat) (hh : high ≤ umax) (s : Feed.St)
+    (hs : s = {} ∨ Feed.FInv src s) :
+    Feed.FInv src (Feed.feedSegment src low high s) ∧ Nat.sqrt high < (Feed.feedSegment src low high s).prime ∧
+    (∀ i, src i ≤ Nat.sqrt high → src i ∈ (Feed.feedSegment src low high s).added.map Prod.fst) ∧
+    ∃ extra, (Feed.feedSegment src low high s).added = extra ++ s.added ∧
+      ∀ x ∈ extra, x.2 = low ∧ x.1 * x.1 ≤ high ∧ ∃ i, x.1 = src i :=
+  Feed.feedSegment_spec src h low high hh s hs
+
+/-- **C01 (the segment loop sieves correctly)**: composition of the segment grid (C01_segments_tile), the feed loop
+    (C01_feed_complete), the first-multiple / walk theorems and the pre-sieve theorem.  Run `while (hasNextSegment())
+    sieveSegment()` from Erat::init(start, stop) — any 7 ≤ start ≤ stop < 2^64, sieve size, cache configuration, routing of
+    sieving primes to the three cross-off algorithms.  For EVERY segment reached and every number n of it with
+    163 < n ≤ stop: n is prime iff its pre-sieved bit is set and none of the sieving primes that have been ADDED BY THE
+    LOOP when the segment is sieved (each at the segment start where the loop added it) crosses it off.
+    Assumed of SievingPrimes::next(): it delivers the primes of (163, isqrt(stop)] in increasing order, then ~0ull
+    (validated by the segment and sprimes streams; the inner sieve is the same Erat code one level down). -/
+theorem C01_loop_segments_correct (big : Nat → Bool) (src : Nat → Nat) (hsrc : Feed.SrcOk src)
+    (cfg : EratCfg) (start stop kib : Nat) (h7 : 7 ≤ start) (hss : start ≤ stop) (hst : stop ≤ umax) (hsu : start < umax)
+    (hprimes : ∀ i, src i < umax → (src i).Prime ∧ 163 < src i)
+    (hall : ∀ p, p.Prime → 163 < p → p * p ≤ stop → ∃ i, src i = p) :
+    ∀ r ∈ Feed.run src (stop + 1) (EratGeom.init cfg start stop kib) {},
+      ∀ o b, b < 8 → 163 < r.1 + 30 * o + PreSieve.offs.getD b 0 →
+        r.1 + 30 * o + PreSieve.offs.getD b 0 ≤ r.1 + 30 * r.2.1 + 1 → r.1 + 30 * o + PreSieve.offs.getD b 0 ≤ stop →
+        ((r.1 + 30 * o + PreSieve.offs.getD b 0).Prime ↔
+          ((PreSieve.preSieveByte PreSieve.allTables r.1 o).testBit b = true ∧
+           ∀ x ∈ r.2.2.2, ¬ (if big x.1 then Wheel.CrossedOff210 stop x.1 x.2 (r.1 + 30 * o + PreSieve.offs.getD b 0)
+                             else Wheel.CrossedOff30 stop x.1 x.2 (r.1 + 30 * o + PreSieve.offs.getD b 0)))) :=
+  Feed.loop_segments_correct big src hsrc cfg start stop kib h7 hss hst hsu hprimes hall
+
+/-- **C01 (inner feed)** SievingPrimes::sieveSegment(): `for (i = tinyIdx_; i*i <= high; i += 2) if (tinySieve_[i])
+    addSievingPrime(i)` adds exactly the j ≥ tinyIdx_ of tinyIdx_'s parity with j ≤ isqrt(high) and tinySieve_[j] set, and
+    leaves tinyIdx_ at the first number of that parity beyond isqrt(high) — for every high, tinyIdx_ and table. -/
+theorem C01_tiny_feed (tiny : Nat → Bool) (high tinyIdx : Nat) :
+    Nat.sqrt high < (Feed.tinyFeed tiny high tinyIdx).1 ∧ tinyIdx ≤ (Feed.tinyFeed tiny high tinyIdx).1 ∧
+    (Feed.tinyFeed tiny high tinyIdx).1 % 2 = tinyIdx % 2 ∧
+    ∀ j, j ∈ (Feed.tinyFeed tiny high tinyIdx).2 ↔
+      (tinyIdx ≤ j ∧ j ≤ Nat.sqrt high ∧ j % 2 = tinyIdx % 2 ∧ tiny j = true) :=
+  Feed.tinyFeed_spec tiny high tinyIdx
+
+/-- non-vacuity: a concrete source (167, 173, 179, then the sentinel) satisfies the hypotheses' shape, and two rounds of
+    the loop behave as stated: isqrt(30000) = 173, so 167 and 173 are added at low 0 and 179 stays pending; the next
+    segment (high 32100, isqrt 179) adds 179 at its own low -/
+example :
+    let src : Nat → Nat := fun k => [167, 173, 179].getD k umax
+    let s1 := Feed.feedSegment src 0 30000 {}
+    let s2 := Feed.feedSegment src 30000 32100 s1
+    s1.added = [(173, 0), (167, 0)] ∧ s1.prime = 179 ∧ s2.added = [(179, 30000), (173, 0), (167, 0)] ∧ s2.prime = umax := by
+  decide +kernel
+
+example : Feed.tinyFeed (fun j => j % 3 ≠ 0) 200 5 = (15, [5, 7, 11, 13]) := by decide +kernel
+
+/-- **C01 (feed sources)** regenerated on every run: the loops the feed model was written from -/
+theorem C01_feed_source :
+    Gen.modelSources.filter (fun e => e.1 ∈ ["PrimeGenerator.sieveSegment", "CountPrintPrimes.sieve", "SievingPrimes.init", "SievingPrimes.tinySieve", "SievingPrimes.sieveSegment", "SievingPrimes.next"]) =
+     [("PrimeGenerator.sieveSegment", "3639ea2a437c015b1ea1"),
+      ("CountPrintPrimes.sieve", "2d085e0366bff642d27e"),
+      ("SievingPrimes.init", "c3b17f80866161ac42c5"),
+      ("SievingPrimes.tinySieve", "113fa3fd72436a642e1b"),
+      ("SievingPrimes.sieveSegment", "03e2ed93360f87098a63"),
+      ("SievingPrimes.next", "44d200de44feb094f754")] := by decide
 
 end Ps.Props
